@@ -229,6 +229,25 @@ func runC07(c *h.Ctx) {
 			c.Violation("a request is served exactly for registered origins", map[string]any{"origin": h.Hex([]byte(n)), "served": served})
 		}
 	}
+	// a correct envelope (opens under the name key, associated data and signature consistent) around a request-key field
+	// that is not a P-384 point, or is a point other than the signer's: refused at the key / signature check
+	{
+		good := cat([]byte{is.env.tokenKeyID[31]}, cat([]byte{0}, rnd(c, 255)), u16pfx(append([]byte("origin.example"), make([]byte, 18)...)))
+		otherKey, _ := stdecdsa.GenerateKey(elliptic.P384(), crand.Reader)
+		for _, k := range [][]byte{cat([]byte{2}, bytesFF(48)), cat([]byte{3}, make([]byte, 48)), make([]byte, 49), cat([]byte{4}, rnd(c, 48)), cat([]byte{2}, elliptic.P384().Params().P.Bytes()),
+			elliptic.MarshalCompressed(elliptic.P384(), otherKey.X, otherKey.Y)} {
+			if wire, err := craftType3Key(c, is, client, good, k); err == nil {
+				if is.evalCase(c, "request-key:not-a-point-or-not-the-signer", wire) {
+					c.Violation("a request whose request key is not a curve point / not the signing key is served", map[string]any{"request_key": h.Hex(k)})
+				}
+			}
+		}
+		if wire, err := craftType3(c, is, client, good); err == nil {
+			if !is.evalCase(c, "request-key:crafted-control", wire) {
+				c.Violation("the crafted control request (valid in every respect) is refused: harness bug or issuer defect", nil)
+			}
+		}
+	}
 	// inner request that fails to parse (short plaintext) under a correct envelope; also against an issuer
 	// that registered the empty origin name (the code looks up "" after a failed inner decode)
 	isEmpty := newC07Issuer(c, 0, []string{"", "x"})
@@ -250,9 +269,18 @@ func runC07(c *h.Ctx) {
 }
 
 // craftType3 builds a correctly signed and encrypted request whose plaintext is arbitrary bytes.
-func craftType3(c *h.Ctx, is *c07Issuer, _ type3.RateLimitedClient, plaintext []byte) ([]byte, error) {
+func craftType3(c *h.Ctx, is *c07Issuer, cl type3.RateLimitedClient, plaintext []byte) ([]byte, error) {
+	return craftType3Key(c, is, cl, plaintext, nil)
+}
+
+// craftType3Key: as craftType3, with the request-key FIELD replaced by keyEnc (bound as associated data and covered by
+// the signature of a fresh key: the envelope opens, the field itself need not be a point).
+func craftType3Key(c *h.Ctx, is *c07Issuer, _ type3.RateLimitedClient, plaintext []byte, keyOverride []byte) ([]byte, error) {
 	key, _ := stdecdsa.GenerateKey(elliptic.P384(), crand.Reader)
 	keyEnc := elliptic.MarshalCompressed(elliptic.P384(), key.X, key.Y)
+	if keyOverride != nil {
+		keyEnc = keyOverride
+	}
 	pkBytes := is.suite.KEM.SerializePublicKey(mustPub(is))
 	pk, _ := is.suite.KEM.DeserializePublicKey(pkBytes)
 	enc, ctx, err := hpke.SetupBaseS(is.suite, crand.Reader, pk, []byte("TokenRequest"))
